@@ -20,7 +20,7 @@ for md in sorted(glob.glob(os.path.join(out, "change*.md"))):
     title = re.sub(r"^#+\s*(Change|change)\s*\d+\s*[-:—–]*\s*", "", title.strip())
     slug = re.sub(r"[^a-z0-9]+", "-", title.lower()).strip("-")[:48].strip("-")
     prop = pid if not pid.startswith("F") else None
-    seed_id = "%s-%s%s" % (pid, {"mut": "", "mut2": "w2-", "mut3": "w3-"}.get(prefix, prefix + "-"), slug or ("change" + k))
+    seed_id = "%s-%s%s" % (pid, {"mut": "", "mut2": "w2-", "mut3": "w3-", "mut4": "w4-"}.get(prefix, prefix + "-"), slug or ("change" + k))
     cmd = [sys.executable, os.path.join(here, "seeded.py"), out, k, wt, pkg, seed_id, pid] + extra
     print("==", " ".join(cmd), flush=True)
     subprocess.run(cmd)
